@@ -308,6 +308,57 @@ pub fn reference_scores(m: &ModelData, text: &str) -> Vec<i64> {
 }
 
 /// Reference tags for a fully segmented sentence (boundaries: true = word boundary).
+/// The candidate scores the statement assigns to every token that has a tag model: per token (by its end position) and
+/// tag category the candidates with bias + tag n-gram weights; a category with a single candidate reports that candidate
+/// with score 0 (it has no score slot), a category without candidates reports nothing.
+pub fn reference_tag_scores(m: &ModelData, text: &str, wb: &[bool]) -> Vec<(usize, Vec<Vec<(String, i64)>>)> {
+    let chars: Vec<char> = text.chars().collect();
+    let types: Vec<u8> = chars.iter().map(|&c| char_type(c)).collect();
+    let n = chars.len();
+    let mut out = vec![];
+    let mut start = 0;
+    for e in 1..=n {
+        if e == n || wb[e - 1] {
+            let surface: String = chars[start..e].iter().collect();
+            if let Some(tm) = m.tag_models.iter().find(|t| t.token == surface) {
+                let pos = e - 1;
+                let mut scores: Vec<i64> = tm.bias.iter().map(|&b| b as i64).collect();
+                for d in &tm.char_ngram_model.0 {
+                    let g: Vec<char> = d.ngram.chars().collect();
+                    for w in &d.weights {
+                        let endc = pos + w.rel_position as usize;
+                        if endc < n && endc + 1 >= g.len() && chars[endc + 1 - g.len()..=endc] == g[..] {
+                            for (s, x) in scores.iter_mut().zip(&w.weights) { *s += *x as i64; }
+                        }
+                    }
+                }
+                for d in &tm.type_ngram_model.0 {
+                    let g = &d.ngram;
+                    for w in &d.weights {
+                        let endc = pos + w.rel_position as usize;
+                        if endc < n && endc + 1 >= g.len() && types[endc + 1 - g.len()..=endc] == g[..] {
+                            for (s, x) in scores.iter_mut().zip(&w.weights) { *s += *x as i64; }
+                        }
+                    }
+                }
+                let mut off = 0;
+                let mut per_cat = vec![];
+                for cands in &tm.tags {
+                    if cands.len() >= 2 {
+                        per_cat.push(cands.iter().enumerate().map(|(i, c)| (c.clone(), scores[off + i])).collect());
+                        off += cands.len();
+                    } else {
+                        per_cat.push(cands.iter().map(|c| (c.clone(), 0i64)).collect());
+                    }
+                }
+                out.push((e, per_cat));
+            }
+            start = e;
+        }
+    }
+    out
+}
+
 pub fn reference_tags(m: &ModelData, text: &str, wb: &[bool]) -> (usize, Vec<Option<String>>) {
     let chars: Vec<char> = text.chars().collect();
     let types: Vec<u8> = chars.iter().map(|&c| char_type(c)).collect();
